@@ -79,6 +79,18 @@ Definition evio_model (case : bool * list N * list (list N)) : V :=
       VL [VB (stored e); VB (printed e)]
   end.
 
+(* the nesting level (or the event's own prefix) may change while the event is open: every write -- and the closing --
+   prints with the prefix in force at that moment *)
+Definition ev_run_var (enabled : bool) (pws : list (list N * list N)) (cpfx : list N) : evio :=
+  ev_close enabled cpfx (fold_left (fun e pw => ev_write enabled (fst pw) (snd pw) e) pws ev0).
+
+Definition evio_var_model (case : bool * list N * list (list N * list N)) : V :=
+  match case with
+  | (enabled, cpfx, pws) =>
+      let e := ev_run_var enabled pws cpfx in
+      VL [VB (stored e); VB (printed e)]
+  end.
+
 (* ------------------------------------------------------------------ the log parser *)
 Section Parser.
 (* raw_decode: Some (value, index just past it) or None (JSONDecodeError) *)
